@@ -1072,7 +1072,12 @@ func grpcCase(res *vkit.Result, c Case) {
 		return
 	}
 	defer proxy.ln.Close()
-	chaos := c.Behaviour == "chaos"
+	// refused-while-starting: the target refuses connections for a while during which the startup
+	// profile is still adding instances; dead-target-live-reflection: the method list comes from a
+	// live reflection port while the target port itself refuses every connection
+	refusing := c.Behaviour == "refused-while-starting"
+	dead := c.Behaviour == "dead-target-live-reflection"
+	chaos := c.Behaviour == "chaos" || refusing || dead
 	total := 0
 	var ammo map[string]any
 	var cleanup []string
@@ -1090,7 +1095,7 @@ func grpcCase(res *vkit.Result, c Case) {
 		names = append(names, "code-99", "fine", "slow", "fine", "code--1", "fine")
 		if chaos {
 			names = nil
-			for i := 0; i < 600; i++ {
+			for i := 0; i < map[bool]int{false: 600, true: 60}[dead]; i++ {
 				names = append(names, "fine")
 			}
 		}
@@ -1114,7 +1119,7 @@ func grpcCase(res *vkit.Result, c Case) {
 		names := []string{"code-5", "fine", "code-13", "fine", "slow", "fine", "code-16", "fine", "code-99", "fine"}
 		if chaos {
 			names = nil
-			for i := 0; i < 300; i++ {
+			for i := 0; i < map[bool]int{false: 300, true: 30}[dead]; i++ {
 				names = append(names, "fine")
 			}
 		}
@@ -1157,8 +1162,27 @@ scenarios:
 		total = shots
 	}
 	gun := map[string]any{"type": c.Gun, "target": proxy.Addr, "timeout": "300ms"}
+	if dead {
+		_, tport, _ := net.SplitHostPort(proxy.Addr)
+		rp, _ := strconv.Atoi(tport)
+		gun["target"], gun["reflect_port"] = vkit.ClosedPort(), rp
+	}
 	pool := poolConf(ammo, gun, c.Instances)
-	if chaos {
+	if refusing {
+		// one instance at once, the others over the next two seconds; connections are refused
+		// (accepted and reset at once) from 0.3 s to 1.8 s
+		pool["rps"] = map[string]any{"type": "const", "ops": 100, "duration": "120s"}
+		pool["startup"] = []any{map[string]any{"type": "once", "times": 1}, map[string]any{"type": "const", "ops": 5, "duration": "2s"}}
+		go func() {
+			time.Sleep(300 * time.Millisecond)
+			proxy.mode.Store(1)
+			proxy.dropAll()
+			time.Sleep(1500 * time.Millisecond)
+			proxy.mode.Store(0)
+		}()
+	} else if dead {
+		pool["rps"] = map[string]any{"type": "const", "ops": 100, "duration": "120s"}
+	} else if chaos {
 		pool["rps"] = map[string]any{"type": "const", "ops": 100, "duration": "120s"}
 		go func() {
 			time.Sleep(800 * time.Millisecond)
@@ -1203,7 +1227,7 @@ scenarios:
 				okAfter++
 			}
 		}
-		if chaos && okAfter == 0 {
+		if chaos && okAfter == 0 && !dead {
 			res.Violate(key(c, "never-recovers"), "no call succeeded in a run with 1.2 s of connection chaos followed by seconds of normal service", c)
 		}
 	} else {
@@ -1454,6 +1478,8 @@ func main() {
 	for _, g := range []string{"grpc", "grpc/scenario"} {
 		cases = append(cases, Case{Gun: g, Behaviour: "statuses", Instances: 2})
 		cases = append(cases, Case{Gun: g, Behaviour: "chaos", Instances: 3})
+		cases = append(cases, Case{Gun: g, Behaviour: "refused-while-starting", Instances: 11})
+		cases = append(cases, Case{Gun: g, Behaviour: "dead-target-live-reflection", Instances: 3})
 		cases = append(cases, Case{Gun: g, Behaviour: "wkt", Instances: 2})
 		if vkit.Thorough() {
 			cases = append(cases, Case{Gun: g, Behaviour: "statuses", Instances: 8})
